@@ -16,6 +16,7 @@ import (
 	"strconv"
 	"strings"
 	"sync"
+	"time"
 
 	"github.com/ctessum/geom"
 	gosm "github.com/ctessum/geom/encoding/osm"
@@ -342,8 +343,10 @@ func scenarios(tier string) []Scenario {
 			db := 2
 			split := 4
 			if tier == "thorough" {
-				db = 3
 				split = 16
+				if np == 2 && len(d) <= 4 {
+					db = 3
+				}
 			}
 			add(d, keepBounds, np, db, split, true)
 			add(q, keepTags, np, db, split, true)
@@ -454,7 +457,11 @@ func runScenario(idx int, s Scenario, shard int) scenResult {
 			return res
 		}
 	}
-	cfg := sched.Config{Bound: s.Bound, Delay: s.Delay, EnvChoices: s.Kind == "filter", Shard: shard, NShards: s.Split,
+	var stop func() bool
+	if dl, err := strconv.ParseInt(os.Getenv("VERIF_DEADLINE"), 10, 64); err == nil && dl > 0 {
+		stop = func() bool { return time.Now().Unix() > dl }
+	}
+	cfg := sched.Config{Bound: s.Bound, Delay: s.Delay, EnvChoices: s.Kind == "filter", Shard: shard, NShards: s.Split, Stop: stop,
 		Body: func() sched.Result {
 			var o, v string
 			if s.Kind == "filter" {
@@ -549,6 +556,7 @@ func main() {
 		go func(sh int) {
 			defer wg.Done()
 			cmd := exec.Command(self, "worker", tier, strconv.Itoa(sh), strconv.Itoa(nw))
+			cmd.Env = append(os.Environ(), fmt.Sprintf("VERIF_DEADLINE=%d", time.Now().Add(rep.Budget()-rep.Elapsed()).Unix()))
 			cmd.Stderr = os.Stderr
 			out, err := cmd.StdoutPipe()
 			if err != nil {
